@@ -196,3 +196,43 @@ Theorem history_hypotheses_nonvacuous :
   wall_unique paris13 (sec (W_rep + 7200 * MEG)) /\ wf2_zone paris13 = true.
 Proof. exact history_hypotheses_satisfiable. Qed.
 Print Assumptions history_hypotheses_nonvacuous.
+
+(* ---- the tz database itself (Gen/ZoneTables.v: every table the staged interpreter's zoneinfo ships, regenerated on every run; POSIX rules expanded to the year stated there) *)
+From PV Require Import Gen.ZoneTables Proofs.ShippedZones.
+
+(* every shipped table is well-formed (and gap-separated): checked by the kernel on the data, not by the harness *)
+Theorem shipped_zones_wellformed : forallb wf2_zone shipped_zones = true.
+Proof. exact shipped_wf2_all. Qed.
+Print Assumptions shipped_zones_wellformed.
+
+(* the data is the database: hundreds of distinct tables, tens of thousands of transitions, the structurally odd zones among them *)
+Theorem shipped_zones_are_the_database :
+  ((300 <= length shipped_zones)%nat /\ 30000 <= SHIPPED_TRANSITIONS_COUNT /\ 590 <= SHIPPED_NAMES_COUNT
+   /\ SHIPPED_TRANSITIONS_COUNT = Z.of_nat (fold_right (fun z n => (length (z_trans z) + n)%nat) 0%nat shipped_zones)) /\
+  (In zone_Europe_Paris shipped_zones /\ In zone_America_New_York shipped_zones /\ In zone_Australia_Lord_Howe shipped_zones /\
+   In zone_Pacific_Apia shipped_zones /\ In zone_Pacific_Kiritimati shipped_zones /\ In zone_America_Sao_Paulo shipped_zones /\
+   In zone_Asia_Kathmandu shipped_zones /\ In zone_UTC shipped_zones).
+Proof. exact (conj shipped_data_size named_zones_shipped). Qed.
+Print Assumptions shipped_zones_are_the_database.
+
+(* hence, for every shipped zone and every wall second, without any hypothesis on the table: *)
+Theorem shipped_zone_trichotomy : forall z w, In z shipped_zones ->
+  (wall_unique z w /\ (forall u, renders_to z u w <-> u = w - off_local z w false)) \/
+  (wall_repeated z w /\ (forall u, renders_to z u w <-> (u = w - off_local z w false \/ u = w - off_local z w true)) /\
+     fold_utc z (w - off_local z w false) = false /\ fold_utc z (w - off_local z w true) = true) \/
+  (wall_skipped z w /\ forall u, ~ renders_to z u w).
+Proof. exact shipped_trichotomy. Qed.
+Print Assumptions shipped_zone_trichotomy.
+
+Theorem shipped_zone_construct_valid : forall z W f r W' f', In z shipped_zones -> convert_naive z W f r = Ok (W', f') ->
+  let U := inst z W' f' in fst (render z U) = W' /\ off_utc z (U / MEG) = off_local z (sec W') f'.
+Proof. exact shipped_construct_valid. Qed.
+Print Assumptions shipped_zone_construct_valid.
+
+Theorem shipped_zone_construct_skipped : forall z W, In z shipped_zones -> wall_skipped z (sec W) ->
+  let g := off_local z (sec W) true - off_local z (sec W) false in
+  0 < g /\
+  (wall_in_range (W + MEG * g) = true -> convert_naive z W true false = Ok (W + MEG * g, false)) /\
+  (wall_in_range (W - MEG * g) = true -> convert_naive z W false false = Ok (W - MEG * g, false)).
+Proof. exact shipped_construct_skipped. Qed.
+Print Assumptions shipped_zone_construct_skipped.
